@@ -5,7 +5,7 @@ import ast
 
 from ..const import NameRef, module_const
 from ..core import AnalysisError, walk_no_nested as _wnn, calls_in, call_name, const_str, dotted, unparse, walk_no_nested
-from ..match import enclosing_map, if_chain
+from ..match import canon, enclosing_map, if_chain
 from ..report import Ctx
 from .c08 import APPENDERS
 
@@ -169,8 +169,16 @@ def r3_include_is_transparent(ctx: Ctx) -> None:
     if len(inc) != 1:
         raise AnalysisError("parse_keyword: include arm not found")
     body = inc[0]
-    txt = "\n".join(unparse(b) for b in body)
-    ok = "Scanner(" in txt and "lex_initial" in txt and "scanner.scan(filename, source)" in txt and "parse_initial" in txt and unparse(body[-1]) == "return BlockAstNode(sub_ast, keyword)"
+    mod = ast.Module(body=body, type_ignores=[])
+    pk_fn = pk.node
+    scans = [c for c in calls_in(mod) if (call_name(c) or "").endswith(".scan")]
+    scanners = [c for c in calls_in(mod) if call_name(c) == "Scanner"]
+    parsers = [c for c in calls_in(mod) if call_name(c) == "Parser"]
+    rets = [r for b in body for r in ast.walk(b) if isinstance(r, ast.Return)]
+    ok = (len(scanners) == 1 and "lex_initial" in unparse(scanners[0]) and len(scans) == 1 and [unparse(a) for a in scans[0].args] == ["filename", "source"]
+          and len(parsers) == 1 and "parse_initial" in unparse(parsers[0]) and canon(pk_fn, parsers[0].args[0]) == canon(pk_fn, scans[0])
+          and len(rets) == 1 and isinstance(rets[0].value, ast.Call) and call_name(rets[0].value) == "BlockAstNode"
+          and canon(pk_fn, rets[0].value.args[0]).endswith(".parse()") and unparse(rets[0].value.args[1]) == "keyword")
     ctx.check(ok, "parse_keyword[include]", "the file is scanned and parsed with the same entry states and spliced as a BlockAstNode")
     gens = module_const(ctx.repo, "a816.parse.codegen", "generators")
     g = gens.get("block") if isinstance(gens, dict) else None
